@@ -1,4 +1,6 @@
 """C19 - reported connections are geometrically and kinematically what they claim."""
+import types
+
 import numpy as _np
 import z3
 
@@ -422,6 +424,42 @@ def _run(chk):
     chk.obl(nm, "K2 path VC", [ref_label], "B1 z3", lambda: er().verdict(nm))
 
 
+def _interface_requests(chk):
+    """The call chain options -> problem -> backend request: 'within the configured radius', 'Delta-V tolerance', 'ballistic
+    threshold' are those of THIS solve, for every history of solves on one interface object"""
+    import itertools
+    import hiten.algorithms.connections.interfaces as ci
+    from pyvc.core import real_self
+
+    def th():
+        cls = ci._ManifoldConnectionInterface if hasattr(ci, "_ManifoldConnectionInterface") else \
+            [v for k, v in vars(ci).items() if isinstance(v, type) and hasattr(v, "to_backend_inputs") and hasattr(v, "create_problem")][0]
+        settings = [(0.5, 0.25, 1e-2), (1e-3, 1e-4, 1e-5), (0.125, 0.5, 1e-3)]
+        for hist in itertools.product(range(3), repeat=3):
+            intf = cls()
+            intf.to_numeric = lambda man, cfg, direction=None: (_np.zeros((2, 2)), _np.zeros((2, 6)), _np.arange(2))
+            intf._apply_direction_correction = lambda man, direction: direction
+            src, tgt = object(), object()
+            for k in hist:
+                dv, bal, eps = settings[k]
+                options = types.SimpleNamespace(delta_v_tol=dv, ballistic_tol=bal, eps2d=eps, n_workers=1)
+                config = types.SimpleNamespace(section=types.SimpleNamespace(section_axis="x", section_offset=0.75,
+                                                                           plane_coords=("y", "z")), direction=1)
+                problem = cls.create_problem(intf, domain_obj=(src, tgt), config=config, options=options)
+                call = cls.to_backend_inputs(intf, problem)
+                req = call.request if hasattr(call, "request") else call[0]
+                got = (float(req.dv_tol), float(req.bal_tol), float(req.eps))
+                if got != (dv, bal, eps):
+                    raise Refuted("connections interface: the backend request does not carry the tolerances of this solve",
+                                  f"history of option sets {[settings[i] for i in hist]} (delta_v_tol, ballistic_tol, eps2d): the "
+                                  f"request built for {(dv, bal, eps)} carries {got}", inputs={"history": [list(settings[i]) for i in hist]})
+    chk.obl("connections interface: over all histories of length 3 of option sets on one interface (same manifolds, same section) "
+            "the backend request carries delta_v_tol, ballistic_tol and eps2d of the current solve",
+            "K2 wiring (closed histories, bounded-exhaustive)",
+            ["hiten.algorithms.connections.interfaces:_ManifoldConnectionInterface.create_problem",
+             "hiten.algorithms.connections.interfaces:_ManifoldConnectionInterface.to_backend_inputs"], "B4 exact evaluation", th)
+
+
 def run(chk):
     loader.install()
     chk.under_contract(BK + ":_pair_counts", BK + ":_exclusive_prefix_sum", BK + ":_radpair2d", BK + ":_nearest_neighbor_2d_numba",
@@ -433,3 +471,4 @@ def run(chk):
     _segments(chk)
     _pairs(chk)
     _run(chk)
+    _interface_requests(chk)
